@@ -407,8 +407,18 @@ def model_task(task, ybin, root, prop):
                             out_.append(ns_ if sn_ == "steertimes" else (tr.next() % (4 * 10 ** 9)) * 10 ** 9 + ns_ - 10 ** 18)
                         vals[k_] = out_
                     if sn_ in ("steeru64", "steeri64") and pad_len is not None:
-                        vg_ = V.ValueGen(cx.env, r.fork("ints", sn_), finite_only=finite, json_safe=finite)
-                        vals[k_] = [vg_.gen_int(st_.name) for _ in range(r.randint(20, 60))]
+                        ir_ = r.fork("ints", sn_)
+                        vg_ = V.ValueGen(cx.env, ir_, finite_only=finite, json_safe=finite)
+                        lo_, hi_ = M.INT_RANGE[st_.name]
+                        head_ = []
+                        while len(head_) < 16:
+                            # the items that straddle the boundary: single high bits with (almost) nothing below them, every varint length
+                            c_ = (1 << ir_.randint(6, 64)) + ir_.choice([-1, 0, 0, 1, ir_.randint(2, 127)])
+                            if ir_.chance(0.4):
+                                c_ = -c_
+                            if lo_ <= c_ <= hi_:
+                                head_.append(c_)
+                        vals[k_] = head_ + [vg_.gen_int(st_.name) for _ in range(r.randint(10, 40))]
                 long_stream = False
                 has_arr = any(n in ("steerarr", "steerfix") for n, _, _ in proto.steps)
                 if prop in ("C01", "C03") and r.chance(0.4 if has_arr else 0.15):
